@@ -956,9 +956,21 @@ func fairDynEnqueue(r *run, before, after *scheduler.VerifState) {
 		}
 	}
 	root := c.build(&targetBefore.RootInvocation)
-	createNow = after.Now.Unix()
-	root.walk(path, true, func(*fnode) {})
+	// getOrCreateInvocation: one `mk` update per invocation of the path that does not exist yet
+	var upds []string
+	cur := root
+	for i, k := range path {
+		if cur != nil {
+			cur = cur.child(k)
+		}
+		if cur == nil {
+			upds = append(upds, fmt.Sprintf("mk %s %d %d", intsSp(path[:i]), k, after.Now.Unix()))
+		}
+	}
 	o := c.opInfo[newOp]
-	upd := fmt.Sprintf("enq %s %d %d %d %d", intsSp(path), o.id, o.prio, o.dur, o.ts)
-	fairDynCompare(r, c, "enqueue", upd, 1, root, &target.RootInvocation)
+	upds = append(upds, fmt.Sprintf("enq %s %d %d %d %d", intsSp(path), o.id, o.prio, o.dur, o.ts))
+	if len(upds) > 1 {
+		fairCount["dyn-enqueue-with-new-invocations"]++
+	}
+	fairDynCompare(r, c, "enqueue", strings.Join(upds, " "), len(upds), root, &target.RootInvocation)
 }
